@@ -1,7 +1,9 @@
 check("C14", "model_checking",
       "spec/PenneLex.tla is an executable reference lexer (byte-at-a-time automaton over Seq(0..255), written from the docs and the "
       "property statement). TLC enumerates EVERY text up to 3 (quick) / 4 (thorough, 5.9 million, 49 chunks) symbols over a 49-symbol "
-      "alphabet of lexically significant bytes plus every ordered pair of representative token spellings x 8 separators, checks the "
+      "alphabet of lexically significant bytes plus every ordered pair of representative token spellings x 8 separators, plus characters outside ASCII whose "
+      "truncated code point aliases a lexical class in 128 positions (MC_LexAlias.tla) and 516 integer literals at the 128-bit boundary in every spelling "
+      "(MC_LexNumbers.tla: leading zeros, digit separators, suffix), checks the "
       "tiling invariants on the reference output and emits the expected items; both real lexers are run on every text and kinds, "
       "payload limbs, suffix types, bytes, spans, line/column and error codes are compared with the rule and with each other. Random "
       "token soups / arbitrary bytes are recorded from the real lexers and every recording is accepted or rejected by TLC "
